@@ -760,6 +760,16 @@ func (x *exec) subViewGetters(u Unit, o lib, view reflect.Value) {
 		}
 		g := view.MethodByName(f.Name)
 		if !g.IsValid() {
+			// getters that keep a field's older name
+			if alias := map[string]string{"ReceiptsRoot": "ReceiptRoot", "PrevRandao": "Random"}[f.Name]; alias != "" {
+				g = view.MethodByName(alias)
+			}
+		}
+		x.subViewSetter(u, o, view, i)
+		if x.stop {
+			return
+		}
+		if !g.IsValid() {
 			continue
 		}
 		gt := g.Type()
@@ -1204,5 +1214,66 @@ func (Engine) Describe() core.EngineInfo {
 		Stubs: []string{"the object store's disk and wire: in-memory byte streams with short reads, read errors, failing writers, truncated / torn records, changed offsets, over-limit lists, bit flips",
 			"values: generated from the harness's own transcription of the specification's schema, not from the library's types"},
 		Rule: "distinct = (type, log2 of the record size, generator size class); non-trivial run = at least one truncated, offset-damaged or over-limit record was presented",
+	}
+}
+
+// subViewSetter: view.Set<Field>(v) writes that field and nothing else: afterwards the view encodes as
+// the struct form with the field replaced. The struct value o.v is put back as it was.
+func (x *exec) subViewSetter(u Unit, o lib, view reflect.Value, i int) {
+	st := reflect.ValueOf(o.v).Elem()
+	f := st.Type().Field(i)
+	m := view.MethodByName("Set" + f.Name)
+	if !m.IsValid() || m.Type().NumIn() != 1 || m.Type().In(0) != f.Type || m.Type().NumOut() != 1 || !m.Type().Out(0).Implements(errorType) {
+		return
+	}
+	old := reflect.New(f.Type).Elem()
+	old.Set(st.Field(i))
+	nv := reflect.New(f.Type).Elem()
+	nv.Set(old)
+	switch {
+	case f.Type.Kind() == reflect.Array && f.Type.Elem().Kind() == reflect.Uint8 && f.Type.Len() > 0:
+		nv.Index(0).SetUint(uint64(byte(nv.Index(0).Uint()) ^ 0x5a))
+		nv.Index(f.Type.Len() - 1).SetUint(uint64(byte(nv.Index(f.Type.Len()-1).Uint()) ^ 0xa5))
+	case f.Type.Kind() == reflect.Uint64:
+		nv.SetUint(old.Uint() + 0x0102030405)
+	default:
+		return
+	}
+	// a private view (the caller's view is compared with the unchanged value by other legs)
+	vm := reflect.ValueOf(o.v).MethodByName("View")
+	if !vm.IsValid() || vm.Type().NumIn() != 0 {
+		return
+	}
+	priv := vm.Call(nil)[0]
+	pm := priv.MethodByName("Set" + f.Name)
+	if !pm.IsValid() {
+		return
+	}
+	var outs []reflect.Value
+	if p := guard(func() { outs = pm.Call([]reflect.Value{nv}) }); p != "" {
+		x.viol("C15", "sub-view-setter-panics/"+u.Type+"."+f.Name, fmt.Sprintf("%s: Set%s on the view of a valid value panics: %s", u.Type, f.Name, p))
+		return
+	}
+	if !outs[0].IsNil() {
+		x.viol("C15", "sub-view-setter-fails/"+u.Type+"."+f.Name, fmt.Sprintf("%s: Set%s on the view of a valid value fails: %v", u.Type, f.Name, outs[0].Interface()))
+		return
+	}
+	ps, ok := priv.Interface().(interface {
+		Serialize(w *codec.EncodingWriter) error
+	})
+	if !ok {
+		return
+	}
+	st.Field(i).Set(nv)
+	var wb, gb bytes.Buffer
+	werr := o.serialize(&wb)
+	st.Field(i).Set(old)
+	gerr := ps.Serialize(codec.NewEncodingWriter(&gb))
+	if werr != nil {
+		return
+	}
+	x.res.Stat("sub_view_setters", 1)
+	if gerr != nil || !bytes.Equal(gb.Bytes(), wb.Bytes()) {
+		x.viol("C15", "sub-view-setter/"+u.Type+"."+f.Name, fmt.Sprintf("%s (%s): after Set%s(%v) the view encodes as %s (err %v); the value with that field replaced encodes as %s", u.Type, x.presetName(), f.Name, nv.Interface(), hex8(gb.Bytes()), gerr, hex8(wb.Bytes())))
 	}
 }
